@@ -685,6 +685,14 @@ func ruleSinkSort(c *core.Ctx) {
 		scan = func(n ast.Node, ninfo *types.Info, depth int) {
 			ast.Inspect(n, func(n ast.Node) bool {
 				switch x := n.(type) {
+				case *ast.Ident:
+					// a function or method VALUE handed to the sort (`sort.Slice(xs, e.before)`)
+					if f, ok := ninfo.Uses[x].(*types.Func); ok && core.InModule(f) && depth < 3 && !visited[f.Origin()] {
+						visited[f.Origin()] = true
+						if fd := c.Decl(f.Origin()); fd != nil && fd.Body != nil {
+							scan(fd.Body, c.DeclPkg(fd).TypesInfo, depth+1)
+						}
+					}
 				case *ast.SelectorExpr:
 					if _, ok := need[x.Sel.Name]; ok {
 						if sel, isSel := ninfo.Selections[x]; isSel && sel.Kind() == types.FieldVal {
